@@ -6,10 +6,11 @@ from ..core import Prop
 
 IDENT = (0, 1)
 REAL = (2, 3, 4, 5, 6)          # gzip br zstd deflate snappy
-HDR_NAMES = ["x-a", "X-A", "x-b", "X-Custom-Hdr", "content-type", "Content-Type", "x-c", "vary", "grpc-encoding"]
-TRL_NAMES = ["x-t", "X-T", "x-u", "Grpc-Status", "grpc-message", "x-t-bin", "X-t"]
-VALUES = ["1", "2", "v w", "", "a,b", "application/proto", "gzip", "x=y;z", "0"]
-STATUSES = [0, 0, 200, 200, 201, 299, 400, 404, 415, 429, 500, 503, 599]
+HDR_NAMES = ["x-a", "X-A", "x-b", "X-Custom-Hdr", "content-type", "Content-Type", "x-c", "vary", "grpc-encoding",
+             "content-encoding", "Connect-Content-Encoding", "x-a-b-c", "X-a-B", "set-cookie", "x-1", "x_under", "x.dot"]
+TRL_NAMES = ["x-t", "X-T", "x-u", "Grpc-Status", "grpc-message", "x-t-bin", "X-t", "grpc-status-details-bin", "x-t-u-v", "x_tu", "x.t"]
+VALUES = ["1", "2", "v w", "", "a,b", "application/proto", "gzip", "x=y;z", "0", "a, b", "\"q\"", "x" * 40, "%41", "a:b"]
+STATUSES = [0, 0, 200, 200, 201, 205, 299, 300, 400, 404, 415, 429, 500, 503, 599, 999]
 
 
 class Gen:
@@ -76,8 +77,9 @@ class Gen:
     def headers(self, names, maxn=3):
         r = self.rng
         out = []
-        for _ in range(r.randint(0, maxn)):
-            out.append([r.choice(names), [r.choice(VALUES) for _ in range(r.choice([0, 1, 1, 1, 2, 3]))]])
+        n = r.randint(0, maxn) if r.random() < 0.9 else r.randint(maxn, 2 * maxn + 2)
+        for _ in range(n):
+            out.append([r.choice(names), [r.choice(VALUES) for _ in range(r.choice([0, 1, 1, 1, 2, 3, 5]))]])
         return out
 
     def resp(self, statuses=STATUSES, **kw):
@@ -131,7 +133,7 @@ def items_of(v, kind):
 class C17(Prop):
     id = "C17"
     props = "C17_Props"
-    coq_files = ("Base", "C17_Model", "C17_Spec", "C17_Proofs", "C17_ProofsReq", "C17_Props")
+    coq_files = ("Base", "C17_Model", "C17_Spec", "C17_Proofs", "C17_ProofsReq", "C17_ProofsQ", "C17_Props")
     models = ("C17_Model",)
     packages = {"internal": "internal", "server": "internal/app/referenceserver", "client": "internal/app/referenceclient"}
     kinds = {"c17.msg": "internal", "c17.stream": "internal", "c17.writer": "server", "c17.live": "server",
@@ -141,28 +143,51 @@ class C17(Prop):
             "compressions; c17.writer: every action sequence of length <=3 over {Header.Add, Header.Del, WriteHeader, Write, Flush, "
             "setRawResponse r1, setRawResponse r2, canSendResponse} plus random sequences of length <=8 with random raw responses, "
             "through the real rawResponder/rawResponseWriter over httptest.ResponseRecorder; c17.live: random RawHTTPResponse "
-            "definitions (status unset/2xx/4xx/5xx, header and trailer lists with repeats and case variants, unary and stream bodies) x "
-            "6 request shapes (Unary, IdempotentUnary POST and GET, ClientStream, ServerStream, BidiStream) x HTTP/1.1 and h2c against the "
-            "reference server built by createServer, read by a plain net/http client; c17.request: random RawHTTPRequest definitions "
-            "(verbs, URIs with query, raw and base64/compressed query parameters, header lists with repeats, unary and stream bodies) "
-            "through rawRequestSender over HTTP/1.1 and h2c into a plain recording server. Compressed forms come from the repository's "
-            "own compressor objects (oracle table in each case); non-trivial = a non-error result with a non-empty body or header list")
-    trusted_base = ("Coq 8.16.1 kernel (vm_compute used in Examples only)", "extraction (ExtrOcamlBasic only) + ocaml/driver.ml",
+            "definitions (status unset/2xx/3xx/4xx/5xx/999, 204 and 304 without body and trailers, header and trailer lists with "
+            "repeats and case variants, unary and stream bodies) x 6 request shapes (Unary, IdempotentUnary POST and GET, ClientStream, "
+            "ServerStream, BidiStream) x HTTP/1.1 and h2c against the reference server built by createServer, read by a plain net/http "
+            "client; c17.request: RawHTTPRequest definitions (verbs; URIs whose path segments carry %2F %2f %25 %20 %XX UTF-8 in both hex "
+            "cases, '+', ';', sub-delims, characters net/url re-escapes, malformed escapes, control bytes; URI query strings with repeated "
+            "keys, '+', escapes, ';', empty settings, trailing '?'; fragments; empty URI, '//' and '///' prefixes, URIs without leading "
+            "slash; 0..3 raw and 0..3 base64/compressed query parameters; header lists with repeats; unary and stream bodies) through "
+            "rawRequestSender over HTTP/1.1 and h2c into a plain recording server that records the raw request target (r.RequestURI, "
+            "checked against EscapedPath + RawQuery), the decoded query, the listed headers and the body - a sweep of every special "
+            "segment / URI query / fragment x {no, one raw, one encoded parameter} plus random definitions; c17.cache: every script of "
+            "stream outcomes of length <=3 over {request, request with raw response, io.EOF, other error} x {ClientStream, ServerStream, "
+            "BidiStream, unknown procedure} x 0..4 Receive calls x normal response started or not, plus random scripts, through the real "
+            "rawResponseRecorder.WrapStreamingHandler / firstReqCachingStream over a scripted StreamingHandlerConn whose handler "
+            "receives into a dirty message. Compressed forms come from the repository's own compressor objects (oracle table in each "
+            "case); non-trivial = a non-error result with a non-empty body, header list or request target")
+    trusted_base = ("Coq 8.16.1 kernel (vm_compute used in Examples and in three sweeps over the 128 ASCII codes / 16 hex digits)",
+                    "extraction (ExtrOcamlBasic only) + ocaml/driver.ml",
                     "vlib generators/comparator, Go overlay harness files (incl. the envelope parser and the header projection there)",
                     "modelled not verified: net/http (header map, commit-on-first-write, trailer promotion, chunking, Date suppression, "
-                    "content sniffing is projected away), httptest.ResponseRecorder.Result, url.Values / url.Parse, base64, "
+                    "content sniffing is projected away; the transport writes URL.RequestURI() as request target), "
+                    "httptest.ResponseRecorder.Result, net/url of go1.23 for references without scheme and authority (Parse, setPath, "
+                    "EscapedPath, String, RequestURI, Query, Values.Encode, escape/unescape/validEncoded: a Gallina model compared with the "
+                    "real functions by every c17.request case), base64, proto.Reset/Merge, "
                     "the five compression libraries (Section variable + round-trip hypothesis, checked per generated pair)")
     assumptions = ("decompress (compress x) = x for the five libraries (checked by the oracle run for every generated pair)",
-                   "status codes are 0 or 200..999 (1xx are interim responses in net/http); 204/304 not used over the wire (no body allowed)",
+                   "over the wire status codes are 0 or 200..999 (1xx are interim responses in net/http, the final status is then 200); "
+                   "204/304 only without body bytes and trailers, 304 without Content-Type/Content-Length (net/http removes them over HTTP/1.1)",
                    "header and trailer names are HTTP tokens, not hop-by-hop / framing headers (Content-Length, Transfer-Encoding, "
                    "Connection, Trailer, Host, TE); a name is not used both as header and as trailer of one raw response",
-                   "URIs are origin-form paths with an unescaped query string")
+                   "raw request: the verb is not CONNECT; a query string written in the URI has no space / non-ASCII byte (it goes onto the "
+                   "request line untouched); a URI starting with exactly two slashes is not combined with listed query parameters "
+                   "(url.Parse reads an authority there; not modelled); a URI not starting with '/', '?' or '#' runs into the authority "
+                   "of the request URL and is refused or sent elsewhere - modelled as refused, the Go harness refuses any request whose "
+                   "authority is not the given server's")
     level_text = ("Machine-checked proof (Coq) that the model of the raw body encoders is invertible for all item lists, that for every "
                   "history of handler actions and raw-response choices the inner writer ends in exactly the raw emission or exactly "
-                  "the handler's own output, and that the raw request replaces every part of the built request; the model is tied "
-                  "to the Go code by a differential run (recorder and real HTTP/1.1 + h2c servers) on every check.")
-    level_note = ("Partial in this sense: net/http serialisation, ResponseRecorder, url.Values, base64 and the compression libraries are "
-                  "modelled / oracles, exercised by the differential run, not proved; the correspondence model <-> Go is sampled.")
+                  "the handler's own output, that the streaming interceptor hands the handler exactly the stream it wraps unless the "
+                  "first request carries a raw response (then the handler never runs), and that the raw request replaces every part of "
+                  "the built request with a request target that keeps the given path byte for byte (percent-escapes undecoded) for "
+                  "every URI made of path characters, followed by the untouched or merged query; the model is tied "
+                  "to the Go code by a differential run (recorder, scripted stream and real HTTP/1.1 + h2c servers) on every check.")
+    level_note = ("Partial in this sense: net/http serialisation, ResponseRecorder, net/url (modelled in Gallina for references without "
+                  "authority), base64 and the compression libraries are modelled / oracles, exercised by the differential run, not "
+                  "proved; the correspondence model <-> Go is sampled. Paths containing characters that cannot stand in a path are "
+                  "re-encoded by net/url as a whole (request_path_meaning: same decoded path), not sent byte for byte.")
     technique = "Coq proofs (induction over item lists and action histories, state invariant); differential model-vs-Go correspondence"
     go_timeout = 900
 
@@ -238,7 +263,7 @@ class C17(Prop):
         return []
 
     def nontrivial(self, case, res):
-        return "657272" not in res[:16] and len(res) > 24
+        return "657272" not in res[:16] and "6261642d63617365" not in res and len(res) > 24
 
     def describe(self, case, g, m):
         return {"c17.msg": "message encoder", "c17.stream": "stream encoder", "c17.writer": "raw-or-normal arbitration (recorder)",
@@ -258,16 +283,16 @@ class C17(Prop):
                 for dt in (b"", b"x", b"hello world", bytes(range(0, 256, 7))):
                     cases.append(["c17.msg", None, [dk, dt if dk else b"", comp]])
         cases.append(["c17.msg", None, []])
-        for _ in range(300 if not big else 5000):
+        for _ in range(1000 if not big else 5000):
             cases.append(["c17.msg", None, g.contents()])
         # stream encoder: all flags, then random lists
         for fl in range(0, 258):
             cases.append(["c17.stream", None, [[fl, [], [1, bytes([fl % 256]), rng.choice([1, 2, 3, 4, 5, 6])]]]])
             if fl % 4 == 0:
                 cases.append(["c17.stream", None, [[fl, ["actual"], [1, b"ab", rng.choice(REAL)]], [255 - fl % 256, [], g.contents()]]])
-        for _ in range(1200 if not big else 30000):
+        for _ in range(6000 if not big else 30000):
             cases.append(["c17.stream", None, g.items(5)])
-        for _ in range(150 if not big else 3000):   # well-formed only: the invertibility domain
+        for _ in range(600 if not big else 3000):   # well-formed only: the invertibility domain
             cases.append(["c17.stream", None, [[rng.randrange(256), rng.choice([[], ["actual"]]), g.contents(nil=0, bad=0)]
                                                for _ in range(rng.randint(1, 6))]])
         # writer: bounded-exhaustive action sequences
@@ -279,7 +304,7 @@ class C17(Prop):
             for seq in itertools.product(alpha, repeat=n):
                 cases.append(["c17.writer", None, rng.choice([[], [["vary", ["Origin"]]]]), _copy(list(seq))])
         hnames = ["x-h", "X-A", "x-a", "Content-Type", "x-t", "Trailer", "vary"]
-        for _ in range(900 if not big else 20000):
+        for _ in range(5000 if not big else 20000):
             ops = []
             for _ in range(rng.randint(0, 8)):
                 k = rng.choice([1, 1, 2, 3, 4, 5, 5, 6, 7, 7, 8])
@@ -298,7 +323,7 @@ class C17(Prop):
                     ops.append([k])
             cases.append(["c17.writer", None, g.headers(["vary", "x-mw", "X-A", "access-control-allow-origin"], 2), ops])
         # live: real reference server, both HTTP versions
-        n_live = 420 if not big else 8000
+        n_live = 3000 if not big else 8000
         for i in range(n_live):
             ver, rpc = 1 + i % 2, (i // 2) % 6
             cases.append(["c17.live", None, ver, rpc, [self._live_resp(g, rng)], rng.randint(1, 3)])
@@ -306,8 +331,14 @@ class C17(Prop):
             for rpc in range(6):
                 cases.append(["c17.live", None, ver, rpc, [], 2])
                 cases.append(["c17.live", None, ver, rpc, [[0, [], [0], []]], 1])
+                # body-less statuses: decidable when no body bytes and no trailers are prescribed (see live_observable)
+                for st in (204, 304):
+                    for _ in range(2 if not big else 10):
+                        hn = [h for h in HDR_NAMES if st == 204 or h.lower() != "content-type"]
+                        cases.append(["c17.live", None, ver, rpc, [[st, g.headers(hn, 4), rng.choice([[0], [1, []], [2, []]]), []]],
+                                      rng.randint(1, 3)])
         # request substitution
-        for i in range(900 if not big else 12000):
+        for i in range(4000 if not big else 12000):
             cases.append(["c17.request", None, 1 + i % 2, self._rawreq(g, rng)])
         cases += self._target_cases(g, rng, big)
         # the streaming interceptor: every script of length <= 3 (thorough 4) over {request, request with raw response,
